@@ -107,6 +107,58 @@ func (x *xl) free(name string, t ltype, n ast.Node) string {
 	return name
 }
 
+func envHas(name string, t ltype) bool {
+	switch t {
+	case tInt:
+		return envInt[name]
+	case tBool:
+		return envBool[name]
+	case tNat:
+		return envNat[name]
+	}
+	return false
+}
+
+// definingCall: the right-hand side of the single `v := recv.method()` that defines obj (nil if there is none, or if v is assigned again)
+func definingCall(obj types.Object) ast.Expr {
+	if obj == nil {
+		return nil
+	}
+	var def ast.Expr
+	n := 0
+	for _, f := range files {
+		ast.Inspect(f, func(nd ast.Node) bool {
+			as, ok := nd.(*ast.AssignStmt)
+			if !ok {
+				return true
+			}
+			for i, l := range as.Lhs {
+				id, ok := l.(*ast.Ident)
+				if !ok {
+					continue
+				}
+				if info.Defs[id] == obj || info.Uses[id] == obj {
+					n++
+					if as.Tok == token.DEFINE && len(as.Lhs) == 1 && len(as.Rhs) == 1 && i == 0 {
+						if ce, ok := as.Rhs[0].(*ast.CallExpr); ok {
+							if se, ok := ce.Fun.(*ast.SelectorExpr); ok {
+								if _, isRecv := recvPrefix(se.X); isRecv && len(ce.Args) == 0 {
+									def = as.Rhs[0]
+								}
+							}
+						}
+					}
+				}
+			}
+			return true
+		})
+	}
+	if n != 1 {
+		return nil
+	}
+	return def
+}
+
 func recvPrefix(e ast.Expr) (string, bool) {
 	// r.ulen(), r.stack.ulen(), dest.cap() ...
 	for {
@@ -178,6 +230,13 @@ func (x *xl) expr(e ast.Expr) (string, ltype) {
 		t, ok := leanType(tt)
 		if !ok {
 			x.fail(e, "identifier %s has unsupported type %s", v.Name, tt)
+		}
+		if x.useEnv && !envHas(name, t) {
+			// a local the environment does not know: if it is defined once, by a call on the receiver (`n := r.ulen()`: a
+			// hoisted read), it stands for that call
+			if rhs := definingCall(info.Uses[v]); rhs != nil {
+				return x.expr(rhs)
+			}
 		}
 		return x.free(name, t, e), t
 	case *ast.UnaryExpr:
@@ -754,7 +813,7 @@ var condSites = []condSite{
 	{"stack.index", "if", 3, "index_isover"},
 	{"stack.index", "if", 4, "index_fwdok"},
 	{"stack.swap", "exit", 0, "swap_reject"},
-	{"stack.replace", "if", 1, "replace_ok"},
+	{"stack.replace", "if+", 1, "replace_ok"},
 	{"stack.insert", "if", 0, "insert_full"},
 	{"stack.insert", "if", 1, "insert_append"},
 	{"stack.insert", "if", 2, "insert_front"},
@@ -763,7 +822,7 @@ var condSites = []condSite{
 	{"stack.transfer", "atom", 0, "transfer_hascap"}, // "atom": k-th condition after splitting `a && b` (nested ifs and a merged guard are the same)
 	{"stack.transfer", "atom", 1, "transfer_nofit"},
 	{"stack.transfer", "assign:ok", 0, "transfer_ok"},
-	{"stack.defrag", "if", 2, "defrag_go"},
+	{"stack.defrag", "if+", 2, "defrag_go"},
 	{"stack.defrag", "if", 3, "defrag_trunc"},
 	{"stack.implode", "loopexit", 0, "implode_stop"},
 	{"stack.verifyImplode", "assign:last", 1, "implode_last"},
@@ -924,6 +983,30 @@ func genConds() string {
 					return true
 				})
 				if uses {
+					// of a merged guard (`ok && (co < Eq || co > Ge)`) only the part that looks at the value
+					var parts []ast.Expr
+					for _, a := range splitAnd(br.cond) {
+						mention := false
+						ast.Inspect(a, func(m ast.Node) bool {
+							if id, ok := m.(*ast.Ident); ok {
+								if obj, ok := info.Uses[id].(*types.Var); ok {
+									if nt, ok := obj.Type().(*types.Named); ok && nt.Obj().Name() == tn {
+										mention = true
+									}
+								}
+							}
+							return true
+						})
+						if mention {
+							parts = append(parts, a)
+						}
+					}
+					if len(parts) == 1 {
+						br.cond = parts[0]
+					}
+					if as, ok := br.init.(*ast.AssignStmt); ok && len(as.Lhs) != 1 {
+						br.init = nil // `v, ok := x.(T)`: the value is bound to the environment directly
+					}
 					keep = append(keep, br)
 				}
 			}
